@@ -1,13 +1,18 @@
 (* Kernel universe for K20 = CodeBuilder.is_field_nullable (tools/kernels/k20_nullable.py).
    A field type as far as that function inspects it: a stack of Annotated[...] / Final[...] wrappers
-   around a core type, of which only three tests are made. *)
+   around a core type, of which a handful of tests are made, on the type as written (ftype)
+   and on the type with the type variables of the specialisation substituted (real_type). *)
 From Coq Require Import Bool.
 
 Record fcore := mkCore {
   c_any_none : bool;      (* ftype in (typing.Any, type(None), None) *)
-  c_tv_any   : bool;      (* is_type_var_any(self.get_real_type(fname, ftype)) *)
+  c_tv_any   : bool;      (* is_type_var_any(real_type): the field's type variable is not bound in this specialisation *)
   c_optional : bool;      (* is_optional(ftype, resolved type params): a Union of exactly two members, one is None *)
-  c_union_none : bool;    (* is_union(ftype) and NoneType in get_args(ftype): any Union with a None member *)
+  c_union_none : bool;    (* is_union(ftype) and NoneType in get_args(ftype): the type AS WRITTEN is a Union with a None member
+                             (the test of /repo before 4da7e9e; kept so that the older source still translates) *)
+  c_real_any_none : bool;   (* real_type in (typing.Any, type(None), None), real_type = self.get_real_type(fname, ftype):
+                               the written type with the type variables of this specialisation substituted *)
+  c_real_union_none : bool; (* is_union(real_type) and NoneType in get_args(real_type)  (since /repo 4da7e9e) *)
 }.
 
 Inductive fty :=
